@@ -349,6 +349,22 @@ def r5(ctx):
     sh = ctx.fn("connection:ClientServerConnection._sendClientHello")
     st = [n for n in walk_own(sh.node) if isinstance(n, ast.Assign) and norm(n.targets[0]) == "self.time_client_hello_sent"]
     ctx.check(len(st) == 1 and norm(st[0].value) == "self.clock()", "C12.R5", sh, "the marker is the clock at hello time", witness=[norm(s) for s in st])
+    # the deadline runs from the start of the attempt: the marker is set by _sendClientHello only, and _sendClientHello is called by
+    # connect() only.  A re-send of the hello from a timeout callback or from update() would set the marker again and push the deadline
+    # ahead of every check (message timeout < connection timeout are the defaults): an unanswered attempt never ends.
+    setters = []
+    for f in ctx.repo.funcs.values():
+        if f.module.name in ("connection", "client") :
+            for n in walk_own(f.node):
+                tg = n.targets if isinstance(n, ast.Assign) else [n.target] if isinstance(n, (ast.AugAssign, ast.AnnAssign)) else []
+                for t in tg:
+                    if isinstance(t, ast.Attribute) and t.attr == "time_client_hello_sent" and not (isinstance(n, ast.Assign) and norm(n.value) == "0"):
+                        setters.append(f.qual)
+    ctx.check(sorted(set(setters)) == [sh.qual], "C12.R5", sh, "only _sendClientHello starts the connect deadline", witness=sorted(set(setters)))
+    cg = ctx.callgraph()
+    callers = sorted({e.caller.qual for e in cg.callers(sh.qual)})
+    ctx.check(callers == ["client:UdpClient.connect"], "C12.R5", sh, "the connect deadline is started once per attempt: _sendClientHello is called by connect() only",
+              "a re-send from a timeout callback or from update() restarts the deadline and the attempt never times out", witness=callers)
     # connect() stores the callback before the hello is sent
     cn = ctx.fn("client:UdpClient.connect")
     cb = [n for n in walk_own(cn.node) if isinstance(n, ast.Assign) and norm(n.targets[0]) == "self.conn.connection_callback"]
